@@ -799,7 +799,10 @@ fn gen_req(rng: &mut Rng, last: bool, allow_special: bool) -> Req {
             path = "/slow".into();
         }
     }
-    let conn = if last && rng.chance(1, 2) {
+    // (a request in the middle of a script may ask to close as well: whatever follows it on the
+    // connection must then not be answered)
+    let early_close = !last && Rng::new(humsim::rng::mix(&[rng.next_u64(), 0xC01_0004])).chance(1, 12);
+    let conn = if (last && rng.chance(1, 2)) || early_close {
         match rng.below(3) {
             0 => Some("close".to_string()),
             1 => None,
